@@ -539,6 +539,20 @@ int main(int argc, char** argv) {
                                 if (good) log.ok();
                             }
                         } catch (const std::exception& e) { log.fail(key, std::string("reader threw: ") + e.what()); }
+                        // the same file through the other access paths: arrays loaded by an index list in
+                        // reverse order (the last array of the file first), then once more after clearData()
+                        try {
+                            EclFile f(path);
+                            std::vector<int> idx; for (int i = (int) arrs.size() - 1; i >= 0; --i) idx.push_back(i);
+                            f.loadData(idx);
+                            bool good = f.size() == arrs.size();
+                            for (size_t i = 0; good && i < arrs.size(); ++i) { std::string why; if (!sameArr(arrs[i], f, i, why)) { log.fail(key + ".reverse-index-load", "array " + std::to_string(i) + ": " + why); good = false; } }
+                            if (good) log.ok();
+                            f.clearData();
+                            good = true;
+                            for (size_t i = 0; good && i < arrs.size(); ++i) { std::string why; if (!sameArr(arrs[i], f, i, why)) { log.fail(key + ".after-clearData", "array " + std::to_string(i) + ": " + why); good = false; } }
+                            if (good) log.ok();
+                        } catch (const std::exception& e) { log.fail(key + ".access-paths", std::string("reader threw: ") + e.what()); }
                         if (!formatted) {
                             std::string why;
                             if (!specParse(vh::slurp(path), arrs, ix, why)) log.fail(key, "layout: " + why); else log.ok();
